@@ -41,6 +41,11 @@ fn gen_case(seed: &Rng, i: u64, tier: &str) -> (String, Vec<String>) {
         let (lines, tag) = pgen::loop_ref_template(&mut r);
         return (format!("class=8t {tag}"), lines);
     }
+    if class == 9 && (i / 10) % 2 == 0 {
+        // templated access-group programs (see pgen::access_group_template)
+        let (lines, tag) = pgen::access_group_template(&mut r);
+        return (format!("class=9t {tag}"), lines);
+    }
     let cfg = match class {
         0 | 1 => pgen::Cfg { size: 6, loops: false, refs: false, cycles: true, malformed: false },
         2 | 3 => pgen::Cfg { size: 10, loops: true, refs: false, cycles: true, malformed: false },
